@@ -290,7 +290,7 @@ func runC18(c *Ctx) {
 				}
 			}
 
-			c.Check(bad == "" && len(helpers) >= 4, "R18.6", "panicking YAML helpers are called only below UnmarshalYAML's recover", fpos(pf), fmt.Sprintf("%d helpers", len(helpers)), "a panicking helper escapes the recover: "+bad)
+			c.Check(bad == "" && len(helpers) >= 1, "R18.6", "panicking YAML helpers are called only below UnmarshalYAML's recover", fpos(pf), fmt.Sprintf("%d helpers", len(helpers)), "a panicking helper escapes the recover: "+bad)
 
 			// explicit panics in pkg/resource decoders: only tryError
 			pans := Find(pf, func(in ssa.Instruction) bool { _, ok := in.(*ssa.Panic); return ok })
